@@ -118,3 +118,14 @@ def to_json(o):
 def b2j(b):
     """bytes -> printable JSON form."""
     return {"__bytes__": bytes(b).hex()}
+
+
+def from_json(o):
+    """Inverse of to_json for the bytes encoding (used by replay)."""
+    if isinstance(o, dict):
+        if set(o) == {"__bytes__"}:
+            return bytes.fromhex(o["__bytes__"])
+        return {k: from_json(v) for k, v in o.items()}
+    if isinstance(o, list):
+        return [from_json(x) for x in o]
+    return o
